@@ -583,6 +583,26 @@ class C04(Plugin):
                     after = lines[node.end_lineno - 1].encode()[node.end_col_offset:].decode(errors='ignore').lstrip() if node.end_lineno <= len(lines) else ''
                     if before.endswith(';') or after.startswith(';'):
                         c.append(path)
+            blocks = []  # a new else: / finally: block right after a statement line that ends in a useless ';'
+            for path, node, parent, field, idx in O.all_nodes(run.root.a):
+                cands = []
+                if isinstance(node, (ast.For, ast.AsyncFor, ast.While, ast.If)) and not node.orelse:
+                    cands.append(('orelse', node.body[-1]))
+                if isinstance(node, (ast.Try, ast.TryStar)):
+                    if not node.orelse and not node.finalbody and node.handlers:
+                        cands.append(('orelse', node.handlers[-1].body[-1]))
+                    if not node.finalbody and (node.orelse or node.handlers):
+                        cands.append(('finalbody', (node.orelse or node.handlers[-1].body)[-1]))
+                for fld, last in cands:
+                    if hasattr(last, 'end_lineno') and not hasattr(last, 'body') and last.end_lineno <= len(lines):
+                        tail = lines[last.end_lineno - 1].encode()[last.end_col_offset:].decode(errors='ignore').lstrip()
+                        if tail.startswith(';'):
+                            blocks.append((path, fld))
+            if blocks and rng.random() < 0.5:
+                path, fld = rng.choice(blocks)
+                return {'k': 'put_slice', 'path': [list(p) for p in path], 'field': fld, 'start': 0, 'stop': 0, 'one': False,
+                        'opts': O.enc_opts({'trivia': O.gen_trivia(rng)} if rng.random() < 0.5 else {}),
+                        'code': O.gen_code(rng, 'stmt', 1, cfg.get('forms', ('src', 'src', 'fst')), self.uniq)}
             if c:
                 path = rng.choice(c)
                 k = rng.choice(['remove', 'cut', 'replace', 'replace'])
